@@ -1,0 +1,90 @@
+//go:build verif
+
+// Contracts for gzv (contract-based deductive verification, /verif). Comment-only file.
+package search
+
+// ---------------------------------------------------------------------------------------------
+// C09 search tree, the parts within reach of per-function contracts: segment matching, child selection, parameter
+// recording, and the public wrappers (what is rejected before the tree is touched, what the recursive workers are asked).
+// The recursive workers `add` and `next` themselves are decided by the bounded check (C09 evidence, labelled bounded):
+// here they only carry ghost records of their activations so that the wrappers can be pinned to them.
+// ---------------------------------------------------------------------------------------------
+
+// match: a literal pattern segment matches exactly the equal token; `:name` matches any token (the empty one included)
+// and binds name := token.
+//@ func match
+//@   property C09
+//@   requires len(pat) > 0
+//@   ensures  implies(pat[0] == ':', result.found && result.named && result.key == pat[1:] && result.value == token)
+//@   ensures  implies(pat[0] != ':', result.found == (pat == token) && !result.named)
+//@   modifies nothing
+
+// children[0] holds the literal segments, children[1] the variable ones (so that forEach tries literals first)
+//@ func (nd *node) getChildren
+//@   property C09
+//@   requires nd != nil
+//@   ensures  result == ite(len(route) > 0 && route[0] == ':', nd.children[1], nd.children[0])
+//@   modifies nothing
+
+//@ func addParam
+//@   property C09
+//@   requires result != nil
+//@   ensures  result.Params != nil && inDom(result.Params, k) && result.Params[k] == v
+//@   ensures  forall(x.(string), implies(x != k, inDom(result.Params, x) == old(result.Params != nil && inDom(result.Params, x)) && implies(inDom(result.Params, x), result.Params[x] == old(result.Params[x]))))
+//@   ensures  result.Item == old(result.Item)
+//@   modifies result.Params, mapof(result.Params)
+//@   allocates
+
+//@ func duplicatedItem
+//@   property C09
+//@   ensures result != nil
+//@   modifies nothing
+//@ func duplicatedSlash
+//@   property C09
+//@   ensures result != nil
+//@   modifies nothing
+
+// ghost records of the recursive workers' activations (contract-only here; bodies decided by the bounded check)
+//@ ghost var addCalls int
+//@ ghost var addNode any
+//@ ghost var addRoute string
+//@ ghost var addItem any
+//@ ghost var addErr error
+//@ func add
+//@   property C09
+//@   trusted
+//@   ensures addCalls == old(addCalls) + 1 && addNode == nd && addRoute == route && addItem == item && result == addErr
+//@   modifies addCalls, addNode, addRoute, addItem, addErr
+//@   flag havoc_heap
+//@   allocates
+
+// nextHit[n][route] / nextItem / nextParams: what the search below node n answers for the remaining route
+//@ ghost var nextHit map[any]map[string]bool
+//@ ghost var nextItem map[any]map[string]any
+//@ func (t *Tree) next
+//@   property C09
+//@   trusted
+//@   requires n != nil && result != nil
+//@   ensures  r0 == nextHit[n][route] && implies(r0, result.Item == nextItem[n][route] && result.Item != nil)
+//@   modifies result.Item, result.Params
+//@   allocates
+
+// Add: a route not starting at the root or an empty item is rejected before the tree is touched; otherwise the whole
+// remaining route and the item go to the worker once, and its duplicate verdicts are reported (never swallowed).
+//@ func (t *Tree) Add
+//@   property C09
+//@   requires t != nil && t.root != nil
+//@   ensures  implies(len(route) == 0 || route[0] != '/', result == errNotFromRoot && addCalls == old(addCalls))
+//@   ensures  implies(len(route) > 0 && route[0] == '/' && item == nil, result == errEmptyItem && addCalls == old(addCalls))
+//@   ensures  implies(len(route) > 0 && route[0] == '/' && item != nil, addCalls == old(addCalls) + 1 && addNode == old(t.root) && addRoute == route[1:] && addItem == item)
+//@   ensures  implies(len(route) > 0 && route[0] == '/' && item != nil, (result == nil) == (addErr == nil))
+
+// Search: only rooted routes are searched, from the root, with the leading slash removed; the answer is the worker's.
+//@ func (t *Tree) Search
+//@   property C09
+//@   results res, ok
+//@   requires t != nil && t.root != nil
+//@   ensures  ok == (len(route) > 0 && route[0] == '/' && nextHit[t.root][route[1:]])
+//@   ensures  implies(ok, res.Item == nextItem[t.root][route[1:]] && res.Item != nil)
+//@   modifies nothing
+//@   allocates
